@@ -137,7 +137,7 @@ dec_process_msg (m_msg_t m)
      *    be in error.
      */
     if (m_msg_send (m, MUNGE_MSG_DEC_RSP, 0) != EMUNGE_SUCCESS) {
-        if (rc == 0) {
+        if ((rc == 0) && c->replay_inserted) {
             replay_remove (c);
         }
         rc = -1;
@@ -1016,6 +1016,7 @@ dec_validate_replay (munge_cred_t c)
     rc = replay_insert (c);
 
     if (rc == 0) {
+        c->replay_inserted = 1;
         return (0);
     }
     if (rc > 0) {
